@@ -2,6 +2,7 @@
 import itertools
 import os
 import random
+import zipfile
 
 from .. import runner, tree
 from ..core import JobResult, job_seed
@@ -127,8 +128,11 @@ def evaluate(f, sets, universe):
     return evaluate(f[1], sets, universe) | evaluate(f[2], sets, universe)
 
 
+_FROM = ["t"]
+
+
 def rows_of(w, home, cond, res):
-    q = "path from t into list" if cond is None else "path from t where %s into list" % cond
+    q = ("path from %s into list" % _FROM[0]) if cond is None else "path from %s where %s into list" % (_FROM[0], cond)
     r = runner.run([q], cwd=w, home=home)
     res.ev()
     if r.verdict != "ok" or r.rc != 0 or r.err or r.panicked:
@@ -157,6 +161,19 @@ def run_job(job):
                     n["owner"] = (rng.choice([0, 1]), rng.choice([0, 3, 5]))
                     n["mode"] = rng.choice([0o644, 0o755, 0o600, 0o700]) | (0o700 if n["kind"] == "dir" else 0)
             tree.materialise(root, nodes)
+        # the algebra is the same whichever way the entries are reached: several roots, depth-first, a depth window, and
+        # zip members (they are filtered by the same WHERE)
+        for dn in ("d0", "d1", "d2"):
+            os.makedirs(os.path.join(root, dn), exist_ok=True)
+        with zipfile.ZipFile(os.path.join(root, "d1", "pack.zip"), "w") as z:
+            for nm, size in (("abc", 50), ("abc.txt", 150), ("xyz", 100), ("a", 101), ("B", 99), ("a*", 10), ("sub/abc", 500)):
+                z.writestr(nm, b"z" * size)
+        _FROM[0] = "t" if job["kind"] == "exhaustive" else rng.choice(["t", "t", "t archives", "t dfs", "t mindepth 2", "t/d0, t/d1 archives, t/d2", "t arc dfs"])
+        if "arc" in _FROM[0] and any(c in a for a in job["atoms"] for c in ("uid", "gid", "hardlinks")):
+            # columns a zip member does not have make every condition on them false, negated or not (no row, like SQL's NULL):
+            # the two-valued algebra is only claimed for columns the entries have
+            _FROM[0] = "t dfs"
+        res.cover("from", _FROM[0])
         atoms = job["atoms"]
         universe, r, q = rows_of(w, home, None, res)
         if universe is None:
@@ -241,9 +258,10 @@ def main(chk):
     return chk.finish(
         rule="metamorphic: rows(F) must equal F evaluated by set algebra over fselect's own rows for its atoms (universe = unfiltered rows). "
              "Exhaustive: every formula with <= %d connectives (not/and/or) over 3 atoms for %d atom triples, round and curly brackets; random: "
-             "formulas of depth 2..5 with redundant brackets, mixed bracket kinds and keyword case. Non-trivial = expected set non-empty and the "
+             "formulas of depth 2..5 with redundant brackets, mixed bracket kinds and keyword case, over one root, three roots, dfs, a depth window and zip members. Non-trivial = expected set non-empty and the "
              "atoms realise >= 2 truth assignments; distinct by (triple, tree, formula, style)." % (n_conn, len(list(triples))),
-        assumptions=["atoms range over always-present columns only (size, name, ext, uid, gid, mode, hardlinks, permission booleans)",
+        assumptions=["atoms range over always-present columns only (size, name, ext, uid, gid, mode, hardlinks, permission booleans); with `archives` only over "
+                     "columns a zip member has too (a column the entry lacks makes every condition on it false, negated or not)",
                      "an atom's own result is taken from fselect itself, so a defect in a comparison (C02) cannot raise a C03 alarm"],
         require={"formula_shapes": 12},
         exhaustive={"formulas_upto_connectives": n_conn, "formulas": total, "atom_triples": [TRIPLES[i] for i in triples]},
